@@ -23,7 +23,7 @@ CLAIMED = {
  "C12": ("model_checking", "6", "Trace predicates C12_RatioDomain (TLC recomputes the range test bit-exactly from the f64 words of argument and bounds), C12_RejectNoop, C12_ChunkDomain, C12_ChunkEffect and C06_StepInRange (the spacing after an accepted change is the one of original*x) over argument classes x history points; TraceTwin: an instance that also receives rejected setters vs a twin that never saw them (TwinFull), relative vs absolute setter twins (TwinCtl)."),
  "C13": ("model_checking", "6", "TLC on Shapes.tla enumerates EVERY call shape (channel counts, mask length/values, per-channel lengths: 22 940 cases for 2 channels) and checks the transcribed decision of validate_buffers against the fault-set contract; the cases are executed against the code. Trace predicates C13_ErrVariant (TLC derives the set of faults of the observed shape), C13_Untouched, C13_Ctor; malformed calls (with and without well-formed masks) at model history points and in seeded histories; TraceTwin TwinFull against a twin that never saw the failed calls."),
  "C14": ("model_checking", "6", "Trace predicates C14_Delay (instants vs reported delay, cleared of fractions; at the constructor's ratio and at ratios set before the stream starts, extremes of the adjustable range included) and C14_Peak (impulse position through real sinc kernels and the FFT resamplers, blocks up to 6000 frames); TraceTwin predicate TwinDelay (the reported delay follows the ratio in force: ramped vs immediate ratio changes)."),
- "C08": ("model_checking", "6", "TLC on Kernels.tla proves (exact integers) that the transcribed coefficient tables of interp_septic/quintic/cubic/lin are the Lagrange cardinals of their node sets (hence the unique interpolant); TraceTwin predicate TwinPoly binds the tables and the window selection to the code: one-hot inputs through FastFixedIn/Out at dyadic phase grids must equal the cardinal polynomial evaluated by TLC in fixed point. Discrete core only; the rounding-level clause (polynomials of admissible degree reproduced to rounding at arbitrary ratios/chunkings, f32 and f64) is GUARDED: the driver measures |out - p(instant)| in units of eps*max|p| and TLC (TwinNear) compares with a bound of 128 units (largest value measured on the unchanged tree: 12)."),
+ "C08": ("model_checking", "6", "TLC on Kernels.tla proves (exact integers) that the transcribed coefficient tables of interp_septic/quintic/cubic/lin are the Lagrange cardinals of their node sets (hence the unique interpolant); TraceTwin predicate TwinNearest (the Nearest resampler picks floor(instant) of its Linear twin - absolute reference for 'the sample at or just before'); TwinPoly binds the tables and the window selection to the code: one-hot inputs through FastFixedIn/Out at dyadic phase grids must equal the cardinal polynomial evaluated by TLC in fixed point. Discrete core only; the rounding-level clause (polynomials of admissible degree reproduced to rounding at arbitrary ratios/chunkings, f32 and f64) is GUARDED: the driver measures |out - p(instant)| in units of eps*max|p| and TLC (TwinNear) compares with a bound of 128 units (largest value measured on the unchanged tree: 12)."),
  "C15": ("model_checking", "6", "TLC on Kernels.tla executes every kernel's loop and horizontal reduction (scalar, AVX, SSE, NEON; f32/f64) on symbolic products and proves each tap of the window is paired exactly once with its wave sample (C15_LoopPairs, C15_ResultExact) and the make_sincs re-indexing (C15_BranchDelay); TraceTwin predicate KernelEq binds it to the code through one-hot waves (bit-identical to the scalar kernel, zero outside the window, every slice alignment), TwinCtl/TwinNear compare resamplers built on each kernel with the dispatched one. Discrete core; summation-order rounding is a guard. NEON is model-only on this host."),
  "C05": ("model_checking", "6", "TLC: content-model invariants (Contiguous, C06_Supplied) under every chunk schedule on the models; TraceTwin predicates TwinBlocks (FFT adapters / (chunk, sub) pairs resolving to one block size: bit-identical block digests) and TwinTaus (async: identical evaluation instants across chunk sizes, set_chunk_size schedules and FixedIn/FixedOut; tie positions of the nearest-point selection included); async VALUES through the real kernels at ratios 2^k, where all positions are exact and the streams of all chunkings/variants are bit-identical (TwinBlocks; noise and signals with stretches of exact zeros); twin-free Contract predicate C05_FftSmooth (index signal through the FFT resamplers comes out linear: spacing of successive frames = fs_in/fs_out across block and chunk boundaries; numeric guard, f64)."),
  "C10": ("model_checking", "6", "TLC: action property C10_ResetIsInit on AsyncPos/FftBlocks from every reachable state; TraceTwin predicate TwinFull between a used-then-reset instance (history = every reachable model state, plus seeded histories with ramps, masks, failed calls, partial calls) and a fresh twin: identical getters, counts and bit-identical digests."),
